@@ -1,42 +1,47 @@
-import subprocess, re, sys
+import subprocess, re, sys, os
+COQ = os.environ.get('VERIF_COQ', '/verif/coq')
 PROPS = {
- 'C01': [('CoreLocal','guarded_call_refused'),('CoreLocal','dereg_zombie_refused'),('CoreLocal','mod_assert_zombie'),('CoreLocal2','no_ctx_mod_assert')],
- 'C07': [('CoreLocal2','ctxreg_second_refused'),('CoreLocal2','no_ctx_refused'),('CoreLocal2','no_ctx_mod_assert'),('CoreLocal2','ctxdereg_looping_refused'),('CoreLocal2','finalized_refuses_register'),('CoreLocal2','finalize_sets')],
- 'C15': [('CoreLocal2','same_name_refused'),('CoreLocal2','deny_pub_refused'),('CoreLocal2','deny_sub_refused'),('CoreLocal2','deny_ctx_hides_context'),('CoreLocal2','reserved_topic_refused'),('CoreLocal2','persist_dereg_refused')],
- 'C16': [('CoreLocal2','unstash_exact'),('CoreLocal2','stash_appends'),('CoreLocal2','stash_high_refused'),('CoreLocal','guarded_call_refused')],
- 'C17': [('CoreLocal','become_pushes'),('CoreLocal','unbecome_pops'),('CoreLocal','handler_is_top'),('CoreLocal','no_empty_invocation'),('CoreLocal','guarded_call_refused')],
- 'C18': [('CoreLocal2','consume_token_spec'),('CoreLocal2','tb_bound'),('CoreLocal2','consume_token_is_tb_step')],
+ 'C01': [('CoreLocal','guarded_call_refused'),('CoreLocal','dereg_zombie_refused'),('CoreLocal','mod_assert_zombie'),('CoreLocal2','no_ctx_mod_assert'),('GuardsModel','lifecycle_table_from_source'),('GuardsModel','wrong_state_refused_per_source'),('CoreInvInst','lifecycle_monotone'),('CoreInvInst','zombie_is_final'),('CoreInvInst','idle_never_reentered'),('CoreLoop','evaluate_idle_without_hook_starts'),('CoreLoop','evaluate_idle_cases')],
+ 'C07': [('CoreLocal2','ctxreg_second_refused'),('CoreLocal2','no_ctx_refused'),('CoreLocal2','no_ctx_mod_assert'),('CoreLocal2','ctxdereg_looping_refused'),('CoreLocal2','finalized_refuses_register'),('CoreLocal2','finalize_sets'),('GuardsModel','ctx_table_from_source'),('GuardsModel','no_ctx_refused_per_source'),('CoreLoop','ctx_deregister_releases')],
+ 'C15': [('CoreLocal2','same_name_refused'),('CoreLocal2','deny_pub_refused'),('CoreLocal2','deny_sub_refused'),('CoreLocal2','deny_ctx_hides_context'),('CoreLocal2','reserved_topic_refused'),('CoreLocal2','persist_dereg_refused'),('GuardsModel','pub_table_from_source'),('GuardsModel','sub_table_from_source'),('GuardsModel','deny_pub_refused_per_source'),('GuardsModel','deny_sub_refused_per_source'),('CoreInvInst','lifecycle_monotone')],
+ 'C16': [('CoreLocal2','unstash_exact'),('CoreLocal2','stash_appends'),('CoreLocal2','stash_high_refused'),('CoreLocal','guarded_call_refused'),('CoreInvInst','stack_and_stash_empty_unless_active')],
+ 'C17': [('CoreLocal','become_pushes'),('CoreLocal','unbecome_pops'),('CoreLocal','handler_is_top'),('CoreLocal','no_empty_invocation'),('CoreLocal','guarded_call_refused'),('CoreInvInst','stack_and_stash_empty_unless_active')],
+ 'C18': [('CoreLocal2','consume_token_spec'),('CoreLocal2','tb_bound'),('CoreLocal2','consume_token_is_tb_step'),('CoreInvInst','tokens_never_exceed_burst'),('GuardsModel','out_of_tokens_refused'),('GuardsModel','token_guarded_calls'),('GuardsModel','token_is_consumed_last'),('GuardsModel','every_api_has_a_row')],
  'C13': [('CoreLocal2','flush_now_cases'),('CoreLocal2','push_evt_user_event'),('CoreLocal2','push_evt_batch_timer')],
- 'C09': [('CoreLocal3','register_present_eexist'),('CoreLocal3','register_absent_adds'),('CoreLocal3','register_bad_prio_refused'),('CoreLocal3','deregister_present_removes'),('CoreLocal3','deregister_absent_noop'),('CoreLocal3','remove_src_entry_exact'),('CoreLocal3','task_dereg_eperm')],
- 'C02': [('CoreLocal3','tell_copy_ineligible'),('CoreLocal3','tell_copy_appends'),('CoreLocal3','tell_copy_full_drops'),('CoreLocal3','pipe_capacity'),('CoreLocal3','deliver_direct')],
- 'C08': [('CoreLocal3','tell_copy_appends'),('CoreLocal2','push_evt_user_event')],
- 'C04': [('CoreLocal3','href_live'),('CoreLocal3','href_dead_faults'),('CoreLocal3','hunref_not_last'),('CoreLocal3','hunref_last'),('CoreLocal3','hunref_dead_faults'),('CoreLocal6','unfinished_task_disarm_faults'),('CoreLocal6','finished_task_disarm_ok')],
- 'C03': [('CoreLocal4','recv_events_ignores_errno'),('CoreLocal4','set_errno_only'),('CoreLocal4','dispatch_cases'),('CoreLocal4','quit_sets_code'),('CoreLocal4','loop_stop_returns_quit_code'),('CoreLocal4','ready_set_sound'),('CoreLocal4','ready_set_bounded'),('CoreLocal2','push_evt_user_event'),('CoreLocal6','stale_readiness_skipped'),('CoreLocal6','path_fire_reaches_every_watch'),('CoreLocal6','path_fire_only_sources')],
- 'C19': [('CoreLocal4','tell_system_shape'),('CoreLocal4','pause_notifies_once'),('CoreLocal4','resume_notifies_once'),('CoreLocal3','tell_copy_ineligible'),('CoreLocal3','tell_copy_appends')],
+ 'C09': [('CoreLocal3','register_present_eexist'),('CoreLocal3','register_absent_adds'),('CoreLocal3','register_bad_prio_refused'),('CoreLocal3','deregister_present_removes'),('CoreLocal3','deregister_absent_noop'),('CoreLocal3','remove_src_entry_exact'),('CoreLocal3','task_dereg_eperm'),('GuardsModel','prio_table_from_source'),('CoreInvS','source_identity_is_fixed'),('CoreStop','drop_sources_clears')],
+ 'C02': [('CoreLocal3','tell_copy_ineligible'),('CoreLocal3','tell_copy_appends'),('CoreLocal3','tell_copy_full_drops'),('CoreLocal3','pipe_capacity'),('CoreLocal3','deliver_direct'),('CoreSend','broadcast_reaches_exactly_the_eligible'),('CoreSend','publish_reaches_exactly_the_subscribed'),('CoreSend','tell_reaches_only_the_addressee')],
+ 'C08': [('CoreLocal3','tell_copy_appends'),('CoreLocal2','push_evt_user_event'),('CoreSend','broadcast_reaches_exactly_the_eligible'),('CoreSend','publish_reaches_exactly_the_subscribed'),('CoreLoop','process_one_takes_pipe_head')],
+ 'C04': [('CoreLocal3','href_live'),('CoreLocal3','href_dead_faults'),('CoreLocal3','hunref_not_last'),('CoreLocal3','hunref_last'),('CoreLocal3','hunref_dead_faults'),('CoreLocal6','unfinished_task_disarm_faults'),('CoreLocal6','finished_task_disarm_ok'),('CoreInvH','freed_stays_freed')],
+ 'C03': [('CoreLocal4','recv_events_ignores_errno'),('CoreLocal4','set_errno_only'),('CoreLocal4','dispatch_cases'),('CoreLocal4','quit_sets_code'),('CoreLocal4','loop_stop_returns_quit_code'),('CoreLocal4','ready_set_sound'),('CoreLocal4','ready_set_bounded'),('CoreLocal2','push_evt_user_event'),('CoreLocal6','stale_readiness_skipped'),('CoreLocal6','path_fire_reaches_every_watch'),('CoreLocal6','path_fire_only_sources'),('CoreInvS','source_identity_is_fixed'),('CoreLoop','loop_returns_for_a_reason')],
+ 'C19': [('CoreLocal4','tell_system_shape'),('CoreLocal4','pause_notifies_once'),('CoreLocal4','resume_notifies_once'),('CoreLocal3','tell_copy_ineligible'),('CoreLocal3','tell_copy_appends'),('CoreSend','system_notification_reaches_exactly_the_subscribed')],
  'C14': [('CoreLocal5','mod_assert_other_ctx'),('CoreLocal5','mod_assert_no_ctx'),('CoreLocal5','failed_assert_refuses_everything'),('CoreLocal5','foreign_restores_owner_context'),('CoreLocal5','tell_other_ctx_refused'),('GlobalsModel','inventory_checked'),('GlobalsModel','no_race_given_inventory'),('GlobalsModel','contexts_share_no_unsynchronised_state')],
- 'C20': [('CoreLocal3','dtor_ctx_closes_poll_handle'),('CoreLocal3','dtor_src_user_fd'),('CoreLocal3','poll_rm_closes_internal'),('CoreLocal3','poll_rm_idempotent'),('CoreLocal3','poll_add_opens_internal')],
+ 'C20': [('CoreLocal3','dtor_ctx_closes_poll_handle'),('CoreLocal3','dtor_src_user_fd'),('CoreLocal3','poll_rm_closes_internal'),('CoreLocal3','poll_rm_idempotent'),('CoreLocal3','poll_add_opens_internal'),('CoreStop','drop_sources_clears')],
 }
 only = sys.argv[1:] 
 for pid, lst in PROPS.items():
     if only and pid not in only: continue
     extra = ' Globals GlobalsModel' if any(f == 'GlobalsModel' for f, _ in lst) else ''
+    if any(f in ('CoreInv', 'CoreInvInst') for f, _ in lst): extra += ' CoreInv CoreInvInst'
+    if any(f == 'GuardsModel' for f, _ in lst): extra += ' GuardTypes Guards GuardsModel'
+    for mod in ('CoreSend', 'CoreStop', 'CoreLoop', 'CoreInvS', 'CoreInvH'):
+        if any(f == mod for f, _ in lst): extra += ' ' + mod
     q = "From LM Require Import Base CoreTypes CoreModel CoreExec CoreLocal CoreLocal2 CoreLocal3 CoreLocal4 CoreLocal5 CoreLocal6" + extra + ".\nSet Printing Width 110.\nSet Printing Depth 1000.\n"
     for f, l in lst: q += 'Check @%s.%s.\n' % (f, l)
-    open('/verif/coq/Q_tmp.v','w').write(q)
-    r = subprocess.run(['coqc','-Q','.','LM','Q_tmp.v'], cwd='/verif/coq', stdout=subprocess.PIPE, stderr=subprocess.STDOUT, text=True)
+    open(COQ + '/Q_tmp.v','w').write(q)
+    r = subprocess.run(['coqc','-Q','.','LM','Q_tmp.v'], cwd=COQ, stdout=subprocess.PIPE, stderr=subprocess.STDOUT, text=True)
     chunks = re.split(r'\n(?=@?\w+\.?\w*\n?\s+:)', '\n' + r.stdout)
     stmts = {}
     for c in chunks:
         m = re.match(r'\s*@?([\w\.]+)\s*\n?\s+:\s(.*)', c, re.S)
         if m: stmts[m.group(1).split('.')[-1]] = m.group(2).strip()
     bad = False
-    out = "(* Props_%s.v -- property %s.  GENERATED by tools/genprops.py from the lemmas proved in CoreLocal*.v:\n   every statement is printed back by Coq (Check) and re-checked here; ONLY `exact` proofs + Print Assumptions.\n   One-step theorems hold for EVERY behaviour of user callbacks (run_cb is universally quantified) and every script. *)\nFrom LM Require Import Base CoreTypes CoreModel CoreExec CoreLocal CoreLocal2 CoreLocal3 CoreLocal4 CoreLocal5 CoreLocal6%s.\n\n" % (pid, pid, extra)
+    out = "(* Props_%s.v -- property %s.  GENERATED by tools/genprops.py from the lemmas proved in CoreLocal*.v, CoreInv*.v, CoreSend.v, GuardsModel.v:\n   every statement is printed back by Coq (Check) and re-checked here; ONLY `exact` proofs + Print Assumptions.\n   One-step theorems hold for EVERY behaviour of user callbacks (run_cb is universally quantified) and every script;\n   the global ones (CoreInvInst) for every script and fuel; the *_from_source / *_per_source ones are about the guard table regenerated from the C source (Guards.v). *)\nFrom LM Require Import Base CoreTypes CoreModel CoreExec CoreLocal CoreLocal2 CoreLocal3 CoreLocal4 CoreLocal5 CoreLocal6%s.\n\n" % (pid, pid, extra)
     for f, l in lst:
         if l not in stmts: print('MISSING', pid, l, file=sys.stderr); bad = True; continue
         out += "Theorem %s_%s :\n  %s.\nProof. exact (@%s.%s). Qed.\nPrint Assumptions %s_%s.\n\n" % (pid, l, stmts[l].replace('\n', '\n  '), f, l, pid, l)
     if bad: print('NOT WRITTEN', pid, file=sys.stderr); continue
-    open('/verif/coq/Props_%s.v' % pid, 'w').write(out)
+    open(COQ + '/Props_%s.v' % pid, 'w').write(out)
 import os
 for f in ('Q_tmp.v','Q_tmp.vo','Q_tmp.glob','Q_tmp.vok','Q_tmp.vos','.Q_tmp.aux'):
-    try: os.unlink('/verif/coq/'+f)
+    try: os.unlink(COQ + '/' + f)
     except OSError: pass
